@@ -987,7 +987,7 @@ Example Lap_compute_laplacian_order_free_nonvacuous :
     compute_laplacian brk_dist (qz 1) brk_expo 3 brk_near_first = LOk (ts', D') /\
     brk_far_first <> brk_near_first /\
     mlist_eqb (mtab 3 3 (mat_of_triplets ts))
-      [[qfrac 1 2; qfrac (-1) 2; qz 0]; [qfrac (-1) 2; qz 1; qfrac (-1) 2]; [qz 0; qfrac (-1) 2; qfrac 1 2]] = true.
+      [[qz 1; qz (-1); qz 0]; [qz (-1); qz 2; qz (-1)]; [qz 0; qz (-1); qz 1]] = true.
 Proof.
   eexists. eexists. eexists. eexists.
   split; [reflexivity|]. split; [exact brk_same_neighbours|].
